@@ -82,6 +82,7 @@ func MergeContexts(ctx1, ctx2 context.Context) (context.Context, context.CancelC
 			cancel(ctx1.Err())
 		case <-ctx2.Done():
 			cancel(ctx2.Err())
+		case <-ctx.Done():
 		}
 	}()
 	return ctx, cancel
